@@ -427,5 +427,14 @@ row(props=["C16"], func="cmd.processDirs", params=["dirs"], kind="returns",
     expr='collect(dirs, dir, !(%s), call("path/filepath.FromSlash", global("cmd/config.CocaConfig").ReporterPath + "/cloc/" + base(dir) + ".json"))' % IGN,
     what="one report file per subdirectory that is not a VCS/IDE/report directory, named after the directory")
 
+OLD = 'call("pkg/application/refactor/rename/support.BuildMethodPackageInfo", rel.OldObj)'
+RN = "pkg/application/refactor/rename."
+row(props=["C05"], func=RN + "startParse", params=["nodes", "relates"], kind="callguard", callee=RN + "updateSelfRefs", total=2, index=0, each={"as": "node,rel,m"},
+    expr='node.Package == %s.Package && node.NodeName == %s.Class && m.Name == %s.Method' % (OLD, OLD, OLD),
+    what="the declaration is rewritten ⇔ its class has the package and the name of the entry and the method its name (the two parts compared each for itself: package a + class bc is not package ab + class c)")
+row(props=["C05"], func=RN + "startParse", params=["nodes", "relates"], kind="callguard", callee=RN + "updateSelfRefs", total=2, index=1, each={"as": "node,rel,m,call"},
+    expr='call.Package == %s.Package && call.NodeName == %s.Class && call.FunctionName == %s.Method' % (OLD, OLD, OLD),
+    what="a call site is rewritten ⇔ the call is recorded against the package, class and method of the entry")
+
 json.dump({"e5": rows}, open(os.path.join(os.path.dirname(os.path.dirname(os.path.abspath(__file__))), "spec", "e5.json"), "w"), indent=1, ensure_ascii=False)
 print(len(rows), "rows")
